@@ -184,6 +184,11 @@ def build_inputs(cases, rnd, quick):
             tag = {"family": "v2-at", "tree_min": mn}
             out += [("text", fat, tag), ("text", mat, tag), ("list", [mat, fat], tag),
                     ("text", fat.replace("not (", "not("), tag), ("text", "(" + mat + ")", tag)]
+            # list parts that start with "(" and end with ")" but are not enclosed by one matching pair: (a) or (b)
+            lf, lfa = "".join(c["leafy"]), "".join(c["leafyat"])
+            tag = {"family": "v2-leafy", "tree_min": mn}
+            out += [("text", lf, tag), ("list", [lf, "@b"], tag), ("list", ["a", lfa], tag), ("list", [lfa, lf], tag),
+                    ("list", [lf, mat, "x-y"], tag)]
             m = inject(rnd.choice([mn, full]), rnd)
             if m:
                 out.append(("text", m, {"family": "mixed-from-v2", "tree_min": mn}))
@@ -295,7 +300,7 @@ def run(chk):
         fam[m["family"]] = fam.get(m["family"], 0) + 1
     chk.rule = ("CNF formulas up to the bound (TLC, exhaustive; all 5 decoration styles x string/list at design level), per emitted "
                 "formula 2-3 styles x both shapes + a blank variant + 2 random decorations + 3-6 mixed texts; v2 trees x 7 renderings + "
-                "injected old-style operands + 5 '@'-tight renderings; histories of 2-3 Configuration constructions x 5 protocol settings x 4 "
+                "injected old-style operands + 5 '@'-tight renderings + 5 every-operand-in-parentheses renderings (1 text, 4 lists); histories of 2-3 Configuration constructions x 5 protocol settings x 4 "
                 "tag lists (one row per construction); random formulas up to 4x4 over 7 names; every row = one input under V1, V2 and "
                 "AUTO_DETECT with the complete truth table over 2^5 tag subsets; distinct = distinct (shape, input)")
     chk.extra["distinct_nontrivial"] = len({(m["family"] == "probe", json.dumps(m["input"])) for m in meta.values()})
